@@ -212,7 +212,7 @@ class Check(BaseCheck):
               r2 = core.call(m.level_path, f, levels[0], False, n)
               if n == len(pts) and r2[0] == "ok" and len(pts) > 3:
                 rq = np.asarray(r2[1][0]); dq = np.linalg.norm(np.diff(rq, axis=0), axis=1); d0 = np.linalg.norm(np.diff(pts, axis=0), axis=1)
-                if np.ptp(d0) > 0.3 * d0.mean() and np.allclose(rq, pts):
+                if np.ptp(d0) > 0.3 * d0.mean() and np.max(np.abs(rq - pts)) < 1e-6 * d0.mean():
                     return core.Violation("resample", "n_points equal to the number of crossing points returns the unresampled points (not equally spaced)", case)
             n = 7
             r2 = core.call(m.level_path, f, levels[0], False, n)
